@@ -1,6 +1,7 @@
 """C02 Each method attains its advertised order."""
 import facts
 import aff
+import radau
 
 LEVEL = "proof"
 
@@ -19,10 +20,12 @@ def run(rep, tier):
         aff.r_order(rep, ctx, m, t)
         aff.r_est(rep, ctx, m, t)
         aff.r_fsal(rep, ctx, m)
+    rep.rule("R-RADAU-CONST", "the constants RADAU::solve applies satisfy the Radau IIA(5) identities (nodes = roots of 10c^2-8c+1 and 1, TI*T = I, T*Lambda*TI = A^-1, estimator weights) to 1e-13 in 60-digit arithmetic")
+    radau.r_radau_const(rep, f)
     rep.explanation = ("Proof-level for the explicit methods: the Butcher tableau each stepper actually applies is extracted from the type-checked "
                        "program (buffers tracked flow-sensitively, constants read exactly as written) and every Runge-Kutta order condition up to the "
                        "advertised order is discharged in exact rational arithmetic (DOP853's 30-digit decimal literals: |residual| <= 1e-13). "
-                       "Not decided: convergence of Radau's simplified Newton iteration; measured step counts.")
+                       "Radau: the applied constants are those of Radau IIA(5), whose stability function is the (2,3) Pade approximant. Not decided: convergence of Radau's simplified Newton iteration; measured step counts.")
     rep.trusted_base = ["rustc nightly HIR/typeck", "driver/ivp-facts", "engine/symx.py affine interpreter", "engine/trees.py (B-series order theory, HNW II.2)"]
     rep.assumptions = ["the accepted/Continue path with dense output on is the path solve_ivp drives (checked by C12 rules)",
                        "f64 rounding of the written constants is below the 1e-13 acceptance threshold"]
